@@ -131,6 +131,13 @@ CHECKS.update({
             "The quantifier over all texts is explored, not exhausted. Positions are computed by the projection (whitespace-insensitive, case-insensitive search).",
             "DESIGN.md 4 C17"),
 })
+CHECKS.update({
+    "C16": ("translation_validation",
+            "three-way translation validation: the repository's own generator (run on a YAML-subset reader) vs the shipped bytes; the TLA+ transcription of the generator and of the timezone-table builder (DataBuild.tla) evaluated by TLC on the exported sources vs the shipped structures (T_C16.tla); canonical-rendering check tying structure equality to byte equality",
+            "All 205 language modules: generator output = shipped bytes; TLC's Generate(CLDR, supplementary, base) = shipped structure (ordered dictionaries, list concatenation, recursive merge, scalar override, appended keys, the name default, the {0} placeholder rewrite); every module is 'info = ' + the generator's JSON rendering of its own content. Timezone table: TLC rebuilds all 773 rows in build order (group, pattern, timezone, replacement) from the source structure and compares names, pattern texts and offsets row by row with the table unpickled from the shipped cache before the package is imported; pattern flags and both search regexes are compared too. Index: language_order, language_locale_dict and language_map list exactly the modules and exactly the locales each module defines.",
+            "Trusted: TLC, the regex engine for pattern texts after %-substitution / re.sub, json for rendering. The YAML-subset reader is validated by the byte-for-byte reproduction itself.",
+            "DESIGN.md 4 C16"),
+})
 NOT_YET = {}
 
 def main():
